@@ -206,4 +206,16 @@ PROPS = {
         rule='every reachable configuration with empty queues as save point x {text, binary archive} x every continuation sequence up to the stated length x guard answers, '
              'on back (3 configurations) and back11; non-trivial = a continuation step on the loaded machine',
     ),
+    'C20': dict(
+        level='exploration', design_ref='5/C20', custom='storage', oracle=None, engine='storage',
+        technique='exhaustive enumeration of all operation sequences up to depth k over the storage API for a zoo of event types, on the real back-ends under ASan/UBSan/LSan with a construction/destruction ledger',
+        depth={'quick': 4, 'thorough': 5},
+        rule='all sequences of exactly k operations over {enqueue_event, process_event (handled / deferred by state / deferred by action), submit from an action, state changes incl. entering a '
+             'no-history submachine (pool reset), drain, single step, copy-construct, copy-assign, move-construct, move-assign, clear, stop} followed by destruction with events pending, '
+             'for every event type of the zoo, on backmp11 (default and favor_compile_time) and back (deque and circular queues)',
+        level_note='Trusted: the ledger and checksum code in storage/storage.cpp, clang 14 sanitizers. Not covered: event types outside the zoo, sequences longer than k.',
+        level_text='Every sequence of k storage-relevant operations is executed for each event type of a zoo spanning sizes 1-512, alignments 1-64 and trivial / non-trivial / throwing-move / self-referential '
+                   'classes; every dispatched object is compared with the submitted one (bytes, self pointer, alignment), every tracked object must be destroyed exactly once at the address it was constructed at, '
+                   'and the sanitizers report reads of freed, out-of-bounds or leaked memory.',
+    ),
 }
